@@ -50,7 +50,7 @@ def cases(tier, seed):
         out.append({"cls": "ideal", "table": None, "p_f": r * 8000.0, "p_i": 8000.0, "sched": "scalar",
                     "tier": tier})
     synth = ["S_ideal", "S_zlin", "S_zdip", "S_zdip_desc"]
-    shipped = ["T_ship_gas", "T_hay"]
+    shipped = ["T_ship_gas", "T_hay"] + (["T_lib"] if tier == "thorough" else [])
     for tab, r, sc in itertools.product(synth + shipped, ratios, ["scalar", "stepdown", "downup"]):
         p_i = 8000.0
         lo, hi = tables.table_range(tab)
